@@ -96,7 +96,7 @@ def classify(ref, case) -> str:
             return "appdep"
         if first in mtops(case):
             return "manifest"
-        if VAR.fullmatch(first):
+        if VAR.search(first):                # the whole segment, or any part of it, is an unresolved variable
             return "var"
         return "component" if [case["ctx"], first] in case["comps"] else "unspecified"
     return "component" if [ref["stage"], first] in case["comps"] else "unspecified"
@@ -112,7 +112,7 @@ def flags(ref, case):
             out.append("eq-" + label)
         elif first.lower() in [x.lower() for x in sets[label]]:
             out.append("case-eq-" + label)
-    if not first.startswith(("/", "%(")):
+    if not first.startswith("/") and not VAR.search(first):
         if "." in first:
             out.append("dot")
         if "#" in first:
@@ -130,7 +130,7 @@ def sig_for(base: str, ref) -> str:
 
 def is_component_name(ref) -> bool:
     p = ref["producer"]
-    return not p.startswith(("/", "%(")) and p not in G.RESERVED
+    return not p.startswith("/") and not VAR.search(p) and p not in G.RESERVED
 
 
 def call(where, ref, fn, *a, **k):
